@@ -281,13 +281,33 @@ Theorem C11_srandmember_one : forall d now nowms c k hint r d',
 Proof. exact step_srandmember_one. Qed.
 Print Assumptions C11_srandmember_one.
 
-(* the repaired bound: a count below -max_random_repeat (or a non-integer) is refused before the key is looked at *)
-Theorem C11_srandmember_bound : forall d now nowms c k cnt hint,
-  db_wf d -> (atoi64 cnt = None \/ exists n, atoi64 cnt = Some n /\ n < - max_random_repeat) ->
+(* a count that is not an integer is an error and changes nothing *)
+Theorem C11_srandmember_bad_count : forall d now nowms c k cnt hint,
+  db_wf d -> atoi64 cnt = None ->
   exists d', sets_step d now nowms (B "srandmember") [c; k; cnt] hint = Some (err_other, d') /\
              unchanged d d' now.
 Proof. exact step_srandmember_bad_count. Qed.
+Print Assumptions C11_srandmember_bad_count.
+
+(* beyond the bound of the repaired code (count < -max_random_repeat): the reply is the refusal or exactly what the reference demands (-count current members), and nothing changes *)
+Theorem C11_srandmember_bound : forall d now nowms c k cnt n hint r d',
+  db_wf d -> atoi64 cnt = Some n -> n < - max_random_repeat -> wrong_at d now k = false ->
+  sets_step d now nowms (B "srandmember") [c; k; cnt] hint = Some (r, d') ->
+  unchanged d d' now /\
+  (r = err_other \/
+   exists ms, r = RArr (map RBulk ms) /\
+     (forall m, In m ms -> mem_of d now k m = true) /\
+     zlength ms = if card_of d now k =? 0 then 0 else - n).
+Proof. exact step_srandmember_beyond. Qed.
 Print Assumptions C11_srandmember_bound.
+
+(* ... and the refusal is accepted whenever it is what the implementation answered *)
+Theorem C11_srandmember_refusal_accepted : forall d now nowms c k cnt n e,
+  db_wf d -> atoi64 cnt = Some n -> n < - max_random_repeat -> e <> B "WRONGTYPE" ->
+  exists d', sets_step d now nowms (B "srandmember") [c; k; cnt] (RErr e) = Some (err_other, d') /\
+             unchanged d d' now.
+Proof. exact step_srandmember_refusal_accepted. Qed.
+Print Assumptions C11_srandmember_refusal_accepted.
 
 
 (* ---------------------------------------------------------------- WRONGTYPE *)
@@ -435,12 +455,16 @@ Example ex_srandmember_repeats :
                (RArr [RBulk (B "a"); RBulk (B "a"); RBulk (B "a")])
              = Some (RArr [RBulk (B "a"); RBulk (B "a"); RBulk (B "a")], d').
 Proof. eexists. reflexivity. Qed.
+(* beyond the bound: the repaired code's refusal is accepted, so is the reference's answer; the
+   last count within the bound is served *)
 Example ex_srandmember_bound :
-  sets_step ex_db 10 10000 (B "srandmember") [B "srandmember"; B "live"; B "-1048577"] RNil
+  sets_step ex_db 10 10000 (B "srandmember") [B "srandmember"; B "live"; B "-1048577"] (RErr (B "ERR"))
   = Some (err_other, purge ex_db 10)
-  /\ sets_step ex_db 10 10000 (B "srandmember") [B "srandmember"; B "nokey"; B "-1048576"] RNil
+  /\ sets_step ex_db 10 10000 (B "srandmember") [B "srandmember"; B "nokey"; B "-1048577"] (RArr [])
+  = Some (RArr [], purge ex_db 10)
+  /\ sets_step ex_db 10 10000 (B "srandmember") [B "srandmember"; B "nokey"; B "-1048576"] (RErr (B "ERR"))
   = Some (RArr [], purge ex_db 10).
-Proof. split; reflexivity. Qed.
+Proof. repeat split; reflexivity. Qed.
 
 (* SMOVE of the last member removes the source together with its deadline *)
 Example ex_smove_last :
